@@ -46,13 +46,33 @@ Theorem C07_bitmap_clean : forall c mx pool h1 h2,
 Proof. exact bitmap_clean. Qed.
 Print Assumptions C07_bitmap_clean.
 
-(** ** Lookups: whatever a leaf reads inside a callback (lookup_current, the scope of the event / span, parent(),
-    and navigating on from the spans a scope yields) mentions only spans that leaf was notified of, i.e. spans its
-    own filters (and the global ones) accepted *)
+(** ** Lookups: whatever a leaf reads inside a callback — lookup_current, the scope of the event / span (event_scope,
+    span_scope), parent(), parent() applied repeatedly up to the root, parent().scope(), scope().from_root(), and
+    navigating on (parent(), scope()) from every span a scope yields — mentions only spans that leaf was notified
+    of, i.e. spans its own filters (and the global ones) accepted *)
 Theorem C07_lookup_filtered : forall c mx pool h,
   WF c -> HintSound c mx pool -> clean c mx pool h = true -> run_lookup c mx pool init [] h.
 Proof. exact lookup_filtered. Qed.
 Print Assumptions C07_lookup_filtered.
+
+(** ... and exactly those, in order: every notification equals [record_by acc] (Spec.v: walk the real span tree and
+    the real span stack of the registry at callback time, keep the spans with [acc]) for
+    [acc id] = "the span is in the registry and this leaf was notified of its creation" — no FilterId, no bitmap.
+    The registry at callback time has the span stack and (except inside [on_close], which runs in the middle of the
+    close cascade) the span pool of the state after the operation. *)
+Theorem C07_lookup_exact : forall c mx pool h,
+  WF c -> HintSound c mx pool -> clean c mx pool h = true -> run_exact c mx pool init [] h.
+Proof. exact lookup_exact. Qed.
+Print Assumptions C07_lookup_exact.
+
+(** the mechanism behind the parent chain: a [SpanRef] carries the FilterId of the Context it came from, and every
+    [parent()] hop hands that same FilterId on to the SpanRef it returns and lands on the nearest real ancestor the
+    FilterId does not disable (so [parent().parent()], [parent().scope()] stay inside the layer's view) *)
+Theorem C07_parent_keeps_filter : forall st r p, sr_parent st r = Some p ->
+  snd p = snd r /\ visible st (snd r) (fst p) = true /\
+  Some (fst p) = hd_error (filter (visible st (snd r)) (above st (fst r))).
+Proof. exact parent_hop. Qed.
+Print Assumptions C07_parent_keeps_filter.
 
 (** ** Clean for syntactic reasons: a history without enabled! probes on a stack without vetoing leaves *)
 Theorem C07_clean_syntactic : forall c mx pool h,
@@ -128,6 +148,14 @@ Example C07_nonvacuous :
    deliveredb 4 (nth 7 outs []) = true /\ deliveredb 2 (nth 7 outs []) = false) /\
   deliveredb 3 (nth 2 (run_obs (build nv_stack) 5 pool45 nv_history) []) = true.
 Proof. exact nonvacuous. Qed.
+
+(** climbing past a rejected ancestor (DEBUG conn > INFO request > INFO handler; leaf 1 behind a per-layer INFO filter, leaf 2
+    plain): triples are (parent chain, parent().scope(), scope().from_root()) seen in on_new_span of handler *)
+Example C07_climb_example :
+  clean (build climb_stack) 5 pool45 climb_history = true /\
+  (let out := nth 4 (run_obs (build climb_stack) 5 pool45 climb_history) [] in
+   chain_seen 1 out = [([2], [2], [2; 3])] /\ chain_seen 2 out = [([2; 1], [2; 1], [1; 2; 3])]).
+Proof. exact climb_example. Qed.
 
 (** the F3 stack with an event where the probe was: clean, and the leaf is notified *)
 Example C07_two_nonvacuous :
